@@ -41,9 +41,14 @@ def gen_cases(tier, seed):
     for i in range(n):
         s = env.seed_for(seed, ID, tier, i)
         r = random.Random(s)
-        out.append({"seed": s, "mode": r.choice(["plain", "plain", "registry"]), "n": r.randint(2, 14 if tier == "quick" else 30),
-                    "W": r.choice([1, 2, 4, 8]), "sched": r.choice(["default", "random", "random"]),
-                    "observer": r.choice(["none", "rec", "console", "rec"]), "tier": tier})
+        d = {"seed": s, "mode": r.choice(["plain", "plain", "registry"]), "n": r.randint(2, 14 if tier == "quick" else 30),
+             "W": r.choice([1, 2, 4, 8]), "sched": r.choice(["default", "random", "random"]),
+             "observer": r.choice(["none", "rec", "console", "rec"]), "tier": tier}
+        if d["mode"] == "plain" and r.random() < 0.4:
+            # calls that raise, before or after the interrupt: KeyboardInterrupt must still be what run raises, and nothing may hang
+            d["faults"] = {"p": r.choice([0.15, 0.3, 0.6]), "kinds": r.choice([["exc"], ["exc", "value"], ["exc", "base"]])}
+            d["max_errors"] = r.choice([0, 0, 1, 3, None])
+        out.append(d)
     return out
 
 
@@ -172,7 +177,15 @@ def one_interrupt(desc, build, k, position):
     ctx = build()
     H = ctx["H"]
     I = Interrupter(H, k, position, desc["seed"] ^ k)
-    H.pre = I.pre
+    fail = ctx.get("fail") or {}
+
+    def pre(nid, att):
+        I.pre(nid, att)
+        f = fail.get(nid)
+        if f is not None:
+            raise plainrun.make_exc(f[0], nid, att)
+
+    H.pre = pre
     H.post_extra = None
     old_post = H.post
 
@@ -196,6 +209,7 @@ def one_interrupt(desc, build, k, position):
     returned = False
     in_flight_at_raise = None
     I.drv.start()
+    surfaced_outside = False
     try:
         try:
             result = ctx["run"](progress)
@@ -204,8 +218,11 @@ def one_interrupt(desc, build, k, position):
             exc = e
         in_flight_at_raise = H.in_flight
         seq_at_raise = H.seq
-    except KeyboardInterrupt as e:  # interrupt handled in harness code after run had returned
-        exc = exc or e
+        if not isinstance(exc, KeyboardInterrupt):
+            for _ in range(20):  # a pending interrupt surfaces at the next bytecode boundary of this (the calling) thread
+                time.sleep(0.0005)
+    except KeyboardInterrupt as e:  # interrupt handled in harness code after run had returned / raised something else
+        surfaced_outside = True
         in_flight_at_raise = H.in_flight
         seq_at_raise = H.seq
     finally:
@@ -241,14 +258,27 @@ def one_interrupt(desc, build, k, position):
     late_starts = [e for e in H.events if e[1] == "start" and e[0] > ref_seq]
     bad = mech = None
     handled_in_run = isinstance(exc, KeyboardInterrupt) and not returned
-    if returned and exc is None:
-        # run completed before the interrupt could be handled inside it (only possible for position 'end' of the last calls)
-        info["note"] = "run finished before the interrupt was handled"
-        try:
-            time.sleep(0.01)  # let a pending KeyboardInterrupt surface here, inside the harness
-        except KeyboardInterrupt:
-            pass
-        return None, None, info, ctx
+    if not isinstance(exc, KeyboardInterrupt):
+        in_ctx = False
+        e_ = exc
+        for _ in range(8):
+            if e_ is None:
+                break
+            if isinstance(e_, KeyboardInterrupt) or isinstance(e_.__context__, KeyboardInterrupt):
+                in_ctx = True
+                break
+            e_ = e_.__context__ or e_.__cause__
+        if surfaced_outside and I.phase_seq is None and not in_ctx:
+            # run completed (returned, or raised the CallError of a failed call) before the interrupt could be handled inside it
+            info["note"] = "run finished before the interrupt was handled"
+            return None, None, info, ctx
+        if I.phase_seq is None and not in_ctx and not surfaced_outside:
+            # neither raised inside run nor afterwards: the interpreter dropped it (see interrupts_dropped_by_interpreter) and the run ended
+            info["note"] = "run finished before the interrupt was handled"
+            info["lost"] = True
+            return None, None, info, ctx
+        # otherwise the interrupt WAS handled inside run (the caller was seen in the pool's join after the signal, or the
+        # KeyboardInterrupt is in the context chain of what run raised): run must raise KeyboardInterrupt - decided below
     if late_starts:
         mech = "start-after-interrupt"
         bad = (f"call(s) {[e[2] for e in late_starts][:6]} started after the interrupt had been handled "
@@ -370,10 +400,13 @@ def run_case(desc):
             plan = uberjob.Plan()
             out = irmod.build(ir, plan, H.make_fn)
 
+            fail = plainrun.choose_failing(ir, desc)
+            kw = {"max_errors": desc["max_errors"]} if "max_errors" in desc else {}
+
             def run(progress):
                 random.seed(seed & 0xFFFF)
-                return uberjob.run(plan, output=out, max_workers=desc["W"], scheduler=desc["sched"], progress=progress)
-            return {"H": H, "run": run, "ir": ir, "describe": ir.describe}
+                return uberjob.run(plan, output=out, max_workers=desc["W"], scheduler=desc["sched"], progress=progress, **kw)
+            return {"H": H, "run": run, "ir": ir, "describe": ir.describe, "fail": fail}
     else:
         def build():
             rp = regmodel.gen_regplan(random.Random(seed), desc["n"])
@@ -389,10 +422,19 @@ def run_case(desc):
     # counted run (no interrupt)
     ctx = build()
     H = ctx["H"]
+    if ctx.get("fail"):
+        fail0 = ctx["fail"]
+
+        def pre0(nid, att):
+            f = fail0.get(nid)
+            if f is not None:
+                raise plainrun.make_exc(f[0], nid, att)
+        H.pre = pre0
     try:
         ctx["run"](None)
     except BaseException as e:
-        return {"status": "inconclusive", "detail": f"counted run raised {e!r}"}
+        if not (ctx.get("fail") and type(e).__name__ == "CallError"):
+            return {"status": "inconclusive", "detail": f"counted run raised {e!r}"}
     N = sum(1 for e in H.events if e[1] == "start")
     counters = {"cases": 1, "call_indices_N": N, "interrupts_sent": 0, "interrupts_handled_in_run": 0, "phase_observed": 0,
                 "finished_before_handling": 0, "repair_runs": 0, "handled_with_calls_in_flight_and_pending": 0,
@@ -428,8 +470,7 @@ def run_case(desc):
             H.pre = None
             H.post = S.H.post if False else None
             # restore the producer side-write hook
-            prod = S.rp.dsrc_of
-            H.post = lambda nid, att, res: S.stores[prod[nid]].side_write(res) if nid in prod else None
+            H.post = S.side_post
             d = S.check_fresh_values(None)
             if d:
                 b, m = f"store state after the interrupt: {d}", "post-interrupt-state"
